@@ -53,6 +53,15 @@ func (f *Round) Call(s *slip.Scope, args slip.List, depth int) slip.Object {
 	return round(s, f, args, depth)
 }
 
+// magnitude returns the absolute value of a fixnum, which for the most
+// negative fixnum is not a fixnum.
+func magnitude(x slip.Fixnum) uint64 {
+	if x < 0 {
+		return uint64(^x) + 1
+	}
+	return uint64(x)
+}
+
 func round(s *slip.Scope, f slip.Object, args slip.List, depth int) slip.Values {
 	slip.CheckArgCount(s, depth, f, args, 1, 2)
 	num := args[0]
@@ -79,34 +88,22 @@ func round(s *slip.Scope, f slip.Object, args slip.List, depth int) slip.Values 
 		if d == 0 {
 			slip.ArithmeticPanic(s, depth, f, args, "divide by zero")
 		}
-		q = tn / d
-		r = tn - q.(slip.Fixnum)*d
-		if r == slip.Fixnum(0) {
-			break
-		}
-		ns := tn < slip.Fixnum(0)
-		if ns {
-			tn = -tn
-		}
-		ds := d < slip.Fixnum(0)
-		if ds {
-			d = -d
-		}
-		q = tn / d
-		r = tn - q.(slip.Fixnum)*d
-		dif := r.(slip.Fixnum) * 2
-		if dif == d && q.(slip.Fixnum)%2 != 0 {
-			q = q.(slip.Fixnum) + 1
-			r = tn - q.(slip.Fixnum)*d
-		}
-		if ns {
-			r = -r.(slip.Fixnum)
-			if !ds {
-				q = -q.(slip.Fixnum)
+		// Truncate then step away from zero when the remainder is more
+		// than half the divisor or exactly half and the quotient is odd.
+		qf := tn / d
+		rf := tn - qf*d
+		if rf != 0 {
+			ar, ad := magnitude(rf), magnitude(d)
+			if rest := ad - ar; rest < ar || (rest == ar && qf%2 != 0) {
+				if (tn < 0) == (d < 0) {
+					qf++
+				} else {
+					qf--
+				}
+				rf = tn - qf*d
 			}
-		} else if ds {
-			q = -q.(slip.Fixnum)
 		}
+		q, r = qf, rf
 	case slip.SingleFloat:
 		q = tn / div.(slip.SingleFloat)
 		q = slip.Fixnum(math.RoundToEven(float64(q.(slip.SingleFloat))))
